@@ -89,6 +89,179 @@ Section Launch.
   Qed.
 End Launch.
 
+(* ---- a plain frame that creates no task only applies primitives other than spawn ------------------------------ *)
+Section NoSpawn.
+  Variable P : prog.
+  Notation G := (b_graph (build (p_decls P) (p_inp P) (p_out P))).
+  Hypothesis Hsw : forall n, is_switch G n = false.
+  Hypothesis Hhd : forall n, is_head G n = false.
+  Hypothesis Hbody : forall i kw a v, p_body P i kw a = OVal v -> clean v = true.
+
+  Variable Rel : mstate -> mstate -> Prop.
+  Hypothesis Rel_refl : forall st, Rel st st.
+  Hypothesis Rel_trans : forall a b c, Rel a b -> Rel b c -> Rel a c.
+  Hypothesis R_emit_obs : forall o st, Rel st (emit_obs o st).
+  Hypothesis R_with_store : forall f st, Rel st (with_store f st).
+  Hypothesis R_bump : forall c st, Rel st (bump c st).
+  Hypothesis R_set_adddata : forall k v st, Rel st (set_adddata k v st).
+  Hypothesis R_push_ready : forall t st, Rel st (push_ready t st).
+  Hypothesis R_set_waiters : forall w st, Rel st (set_waiters w st).
+  Hypothesis R_set_tstate : forall t ts st, Rel st (set_tstate t ts st).
+  Hypothesis R_add_event : forall n st, Rel st (add_event n st).
+
+  Ltac rel_prims :=
+    repeat first
+           [ apply Rel_refl
+           | apply (R_notify Rel Rel_trans R_push_ready R_set_waiters R_set_tstate)
+           | apply (R_notify_keys Rel Rel_trans R_push_ready R_set_waiters R_set_tstate)
+           | apply (R_set_event Rel Rel_trans R_push_ready R_set_waiters R_set_tstate R_add_event)
+           | apply (R_cancel_tasks Rel Rel_trans R_push_ready R_set_waiters R_set_tstate)
+           | apply (R_finally_a Rel Rel_trans R_push_ready R_set_waiters R_set_tstate R_add_event)
+           | apply (R_finally_b P Rel Rel_trans R_push_ready R_set_waiters R_set_tstate R_add_event)
+           | (eapply Rel_trans; [|apply R_emit_obs]) | (eapply Rel_trans; [|apply R_with_store])
+           | (eapply Rel_trans; [|apply R_bump]) | (eapply Rel_trans; [|apply R_set_adddata])
+           | (eapply Rel_trans; [|apply R_push_ready]) ].
+
+  Lemma plain_step_rel t fr sg st :
+    plain_frame P fr = true -> clean_sig sg -> PS st -> creates P fr sg st = [] -> Rel st (fst (step_frame P t fr sg st)).
+  Proof.
+    intros Hf Hs Hst Hc. pose proof Hst as Hst'. unfold PS in Hst'.
+    destruct fr; try discriminate Hf; cbn [plain_frame] in Hf;
+      repeat match goal with
+             | H : (_ && _)%bool = true |- _ => apply andb_true_iff in H; destruct H
+             | H : is_main P ?d = true |- _ => apply is_main_eq in H; subst d
+             | H : negb ?f = true |- _ => apply negb_true_iff in H; subst f
+             | H : ?u = true |- _ => is_var u; subst u
+             end;
+      destruct sg; cbn [clean_sig] in Hs;
+      try match goal with H : clean ?v = true |- _ => pose proof (clean_not_rec v H) as Hnr; pose proof (clean_not_exn v H) as Hne end;
+      cbn [step_frame creates] in *; rewrite ?Hnr, ?Hne, ?Hsw, ?Hhd, ?(plain_dep_error P _ _ _ Hst'), ?(plain_no_subgraph_error _ _ Hst');
+      unfold default_or_raise, reduced; cbn [d_oneof d_rec maind andb];
+      repeat break_match; spawn_norm; cbn [fst];
+      try match goal with H : is_switch _ _ = true |- _ => rewrite Hsw in H; discriminate H end;
+      try match goal with H : is_head _ _ = true |- _ => rewrite Hhd in H; discriminate H end;
+      try match goal with H : dep_error _ _ _ _ = Some _ |- _ => rewrite (plain_dep_error P _ _ _ Hst') in H; discriminate H end;
+      try discriminate Hc;
+      try (rel_prims; fail).
+  Qed.
+End NoSpawn.
+
+Section NoSpawnTasks.
+  Variable P : prog.
+  Notation G := (b_graph (build (p_decls P) (p_inp P) (p_out P))).
+  Hypothesis Hsw : forall n, is_switch G n = false.
+  Hypothesis Hhd : forall n, is_head G n = false.
+  Hypothesis Hbody : forall i kw a v, p_body P i kw a = OVal v -> clean v = true.
+
+  Variable TP : task frame -> Prop.
+  Hypothesis TP_wake : forall x w k, t_state x = TWait w k -> TP x -> TP (with_ts x (TReady k SGo)).
+  Hypothesis TP_cancel_ready : forall x k sg, t_state x = TReady k sg -> TP x -> TP (with_ts x (TReady k (SThrow XCancelled))).
+  Hypothesis TP_cancel_wait : forall x w k, t_state x = TWait w k -> TP x -> TP (with_ts x (TReady k (SThrow XCancelled))).
+
+  Ltac tp_prims :=
+    repeat first
+           [ assumption
+           | apply (ok_notify TP TP_wake) | apply (ok_notify_keys TP TP_wake) | apply (ok_set_event TP TP_wake)
+           | apply (ok_cancel_tasks TP TP_cancel_ready TP_cancel_wait) | apply (ok_cancel_task TP TP_cancel_ready TP_cancel_wait)
+           | apply (ok_finally_a TP TP_wake) | apply (ok_finally_b TP TP_wake)
+           | apply ok_emit_obs | apply ok_with_store | apply ok_bump | apply ok_set_adddata | apply ok_push_ready
+           | apply (ok_wake_all TP TP_wake) ].
+
+  Lemma plain_step_tasks_nospawn t fr sg st :
+    plain_frame P fr = true -> clean_sig sg -> PS st -> creates P fr sg st = [] ->
+    tasks_ok TP st -> tasks_ok TP (fst (step_frame P t fr sg st)).
+  Proof.
+    intros Hf Hs Hst Hc Ht. pose proof Hst as Hst'. unfold PS in Hst'.
+    destruct fr; try discriminate Hf; cbn [plain_frame] in Hf;
+      repeat match goal with
+             | H : (_ && _)%bool = true |- _ => apply andb_true_iff in H; destruct H
+             | H : is_main P ?d = true |- _ => apply is_main_eq in H; subst d
+             | H : negb ?f = true |- _ => apply negb_true_iff in H; subst f
+             | H : ?u = true |- _ => is_var u; subst u
+             end;
+      destruct sg; cbn [clean_sig] in Hs;
+      try match goal with H : clean ?v = true |- _ => pose proof (clean_not_rec v H) as Hnr; pose proof (clean_not_exn v H) as Hne end;
+      cbn [step_frame creates] in *; rewrite ?Hnr, ?Hne, ?Hsw, ?Hhd, ?(plain_dep_error P _ _ _ Hst'), ?(plain_no_subgraph_error _ _ Hst');
+      unfold default_or_raise, reduced; cbn [d_oneof d_rec maind andb];
+      repeat break_match; spawn_norm; cbn [fst];
+      try match goal with H : is_switch _ _ = true |- _ => rewrite Hsw in H; discriminate H end;
+      try match goal with H : is_head _ _ = true |- _ => rewrite Hhd in H; discriminate H end;
+      try match goal with H : dep_error _ _ _ _ = Some _ |- _ => rewrite (plain_dep_error P _ _ _ Hst') in H; discriminate H end;
+      try discriminate Hc;
+      try (tp_prims; fail).
+  Qed.
+End NoSpawnTasks.
+
+Section GenTasks.
+  Variable P : prog.
+  Notation G := (b_graph (build (p_decls P) (p_inp P) (p_out P))).
+  Hypothesis Hsw : forall n, is_switch G n = false.
+  Hypothesis Hhd : forall n, is_head G n = false.
+  Hypothesis Hbody : forall i kw a v, p_body P i kw a = OVal v -> clean v = true.
+
+  Variable TP : task frame -> Prop.
+  Hypothesis TP_wake : forall x w k, t_state x = TWait w k -> TP x -> TP (with_ts x (TReady k SGo)).
+  Hypothesis TP_cancel_ready : forall x k sg, t_state x = TReady k sg -> TP x -> TP (with_ts x (TReady k (SThrow XCancelled))).
+  Hypothesis TP_cancel_wait : forall x w k, t_state x = TWait w k -> TP x -> TP (with_ts x (TReady k (SThrow XCancelled))).
+  Hypothesis TP_launcher : forall i, TP {| t_id := i; t_name := TNRun; t_state := TReady [FDagStart (maind P)] SGo; t_helper := true |}.
+  Hypothesis TP_node : forall i n, TP {| t_id := i; t_name := TNNode n; t_state := TReady [FNodeStart (maind P) n false] SGo; t_helper := true |}.
+
+  Ltac tpg_prims :=
+    repeat first
+           [ assumption
+           | apply (ok_notify TP TP_wake) | apply (ok_notify_keys TP TP_wake) | apply (ok_set_event TP TP_wake)
+           | apply (ok_cancel_tasks TP TP_cancel_ready TP_cancel_wait) | apply (ok_cancel_task TP TP_cancel_ready TP_cancel_wait)
+           | apply (ok_finally_a TP TP_wake) | apply (ok_finally_b TP TP_wake)
+           | apply ok_emit_obs | apply ok_with_store | apply ok_bump | apply ok_set_adddata | apply ok_push_ready
+           | apply (ok_wake_all TP TP_wake)
+           | (apply ok_spawn; [|first [apply TP_launcher|apply TP_node]]) ].
+
+  (* every task other than the running one keeps a predicate that is stable under wake / cancel and holds of the two kinds of
+     task a plain program creates *)
+  Lemma plain_step_tasks_gen t fr sg st :
+    plain_frame P fr = true -> clean_sig sg -> PS st -> tasks_ok TP st -> tasks_ok TP (fst (step_frame P t fr sg st)).
+  Proof.
+    intros Hf Hs Hst Ht. pose proof Hst as Hst'. unfold PS in Hst'.
+    destruct fr; try discriminate Hf; cbn [plain_frame] in Hf;
+      repeat match goal with
+             | H : (_ && _)%bool = true |- _ => apply andb_true_iff in H; destruct H
+             | H : is_main P ?d = true |- _ => apply is_main_eq in H; subst d
+             | H : negb ?f = true |- _ => apply negb_true_iff in H; subst f
+             | H : ?u = true |- _ => is_var u; subst u
+             end;
+      destruct sg; cbn [clean_sig] in Hs;
+      try match goal with H : clean ?v = true |- _ => pose proof (clean_not_rec v H) as Hnr; pose proof (clean_not_exn v H) as Hne end;
+      cbn [step_frame]; rewrite ?Hnr, ?Hne, ?Hsw, ?Hhd, ?(plain_dep_error P _ _ _ Hst'), ?(plain_no_subgraph_error _ _ Hst');
+      unfold default_or_raise, reduced; cbn [d_oneof d_rec maind andb];
+      repeat break_match; spawn_norm; cbn [fst];
+      try match goal with H : is_switch _ _ = true |- _ => rewrite Hsw in H; discriminate H end;
+      try match goal with H : is_head _ _ = true |- _ => rewrite Hhd in H; discriminate H end;
+      fold (maind P); tpg_prims.
+  Qed.
+End GenTasks.
+
+Section SpawnSteps.
+  Variable P : prog.
+  Notation G := (b_graph (build (p_decls P) (p_inp P) (p_out P))).
+  Hypothesis Hsw : forall n, is_switch G n = false.
+  Hypothesis Hhd : forall n, is_head G n = false.
+
+  Lemma step_launch t v st :
+    (needs_thread P && negb (p_thread_ready P)) || (needs_process P && negb (p_process_ready P)) = false ->
+    step_frame P t FChartAfterStart (SVal v) st
+    = (fst (spawn TNRun true [FDagStart (maind P)] st), DCont [FRunWait; FChartAfterRun] SGo).
+  Proof. intros H. cbn [step_frame]. rewrite H. reflexivity. Qed.
+
+  Lemma step_spawn_node t n rest locals st :
+    PS st -> is_ready P (st_store st) (maind P) n = true ->
+    step_frame P t (FDagLoop (maind P) (n :: rest) locals) SGo st
+    = (fst (spawn (TNNode n) true [FNodeStart (maind P) n false] st), DCont [FDagLoop (maind P) rest (locals ++ [st_next st])] SGo).
+  Proof.
+    intros Hst Hr. unfold PS in Hst. cbn [step_frame]. rewrite Hr. cbn [d_oneof maind andb].
+    rewrite (plain_dep_error P _ _ _ Hst), Hsw, Hhd. reflexivity.
+  Qed.
+End SpawnSteps.
+
 (* ---- roles: task 0 runs the chart, task 1 is the launcher, task 2+i runs the i-th node of the order ---------------------- *)
 Section Roles.
   Variable P : prog.
